@@ -8,6 +8,7 @@ use std::borrow::Borrow;
 use std::hash::{Hash, BuildHasher};
 verus! {
 
+//@@ include ../common/vec_specs.rs
 // ---- ASSUMED (trusted, listed): String keys obey the hash-table key model; a String is determined by its characters; a &str key finds
 // exactly the String key with the same characters (Borrow<str> for String); cloning an Arc yields an equal value
 #[verifier::external_body] pub broadcast proof fn axiom_string_key_model() ensures #[trigger] obeys_key_model::<String>() {}
@@ -209,6 +210,46 @@ pub uninterp spec fn sub_obs<T>(s: Sub<T>) -> int;
 #[verifier::external_body]
 pub proof fn lemma_sub_wf<T>(s: Sub<T>) requires s.wf() ensures uniq(s), s.cnt() == 0 ==> forall|x: RouteRef<T>| !s.holds(x), s.cnt() <= usize::MAX {}
 
+// ---- matching (C01 exactness, per layer): the lower layer answers a request with exactly its stored routes whose remaining triggers
+// hold (sat_below names the conjunction of the triggers decided below); each layer verified here proves the same statement for itself
+// with its own trigger added, so the statement composes down the chain
+#[verifier::external_body] pub struct IpAddr { x: u8 }
+#[verifier::external_body] pub struct ReqRest { x: u8 }
+// SHIM: only the field read directly by a layer is visible
+pub struct Request { pub remote_addr: Option<IpAddr>, pub vf_rest: ReqRest }
+pub uninterp spec fn req_scheme(q: Request) -> Option<Seq<char>>;
+impl Request {
+    #[verifier::external_body] pub fn scheme(&self) -> (r: Option<&str>) ensures opt_chars(r) == req_scheme(*self) { unimplemented!() }
+}
+pub uninterp spec fn sub_answers<T>(s: Sub<T>, q: Request, x: RouteRef<T>) -> bool;
+pub uninterp spec fn sat_below<T>(x: RouteRef<T>, q: Request) -> bool;
+impl<T> Sub<T> {
+    #[verifier::external_body]
+    pub fn match_request(&self, request: &Request) -> (r: Vec<RouteRef<T>>) ensures forall|x: RouteRef<T>| #[trigger] r@.contains(x) <==> sub_answers(*self, *request, x) { unimplemented!() }
+}
+// ASSUMED for the shim (PROVED for every layer under contract here, see lemma_*_exact): exactness of the lower layer
+#[verifier::external_body]
+pub proof fn lemma_sub_exact<T>(s: Sub<T>, q: Request)
+    requires s.wf(),
+    ensures forall|x: RouteRef<T>| #[trigger] sub_answers(s, q, x) <==> s.holds(x) && sat_below(x, q),
+{}
+// `routes.extend(other)`: membership of the concatenation (VERIFIED wrapper around Vec::extend)
+pub fn ext_routes<T>(routes: &mut Vec<RouteRef<T>>, other: Vec<RouteRef<T>>)
+    ensures forall|x: RouteRef<T>| #[trigger] final(routes)@.contains(x) <==> old(routes)@.contains(x) || other@.contains(x),
+{
+    broadcast use axiom_iter_seq_vec;
+    let ghost a = routes@; let ghost b = other@;
+    /* verbatim: routes.extend(matcher.match_request(request)); */
+    routes.extend(other);
+    proof {
+        assert(routes@ == a + b);
+        assert forall|x: RouteRef<T>| #[trigger] routes@.contains(x) <==> a.contains(x) || b.contains(x) by {
+            if routes@.contains(x) { let i = choose|i: int| 0 <= i < routes@.len() && routes@[i] == x; if i < a.len() { assert(a[i] == x); } else { assert(b[i - a.len()] == x); } }
+            if a.contains(x) { let i = choose|i: int| 0 <= i < a.len() && a[i] == x; assert(routes@[i] == x); }
+            if b.contains(x) { let i = choose|i: int| 0 <= i < b.len() && b[i] == x; assert(routes@[a.len() + i] == x); }
+        }
+    }
+}
 // ---- generic reasoning about a map of buckets (HashMap<String, _> buckets and the regex tree's pattern -> bucket map alike)
 pub open spec fn cnt_of<T, S: Store<T>>() -> spec_fn(S) -> nat { |s: S| s.cnt() }
 pub open spec fn map_holds<K, T, S: Store<T>>(m: Map<K, S>, x: RouteRef<T>) -> bool { exists|k: K| m.contains_key(k) && #[trigger] m[k].holds(x) }
@@ -308,6 +349,31 @@ pub proof fn lemma_map_batched<K, T, S: Store<T>>(m0: Map<K, S>, m1: Map<K, S>, 
         if map_holds(m0, y) && !ids_has(ids, rid(*y)) { let k = choose|k: K| m0.contains_key(k) && #[trigger] m0[k].holds(y); assert(m1.contains_key(k)); assert(m1[k].holds(y)); }
     }
     assert forall|k: K, x: RouteRef<T>| m1.contains_key(k) && #[trigger] m1[k].holds(x) implies kf(k, x) by { assert(m0[k].holds(x)); }
+}
+// multi-bucket layers: a route sits in EVERY bucket its trigger names (needed for exactness: whichever of its ip ranges / methods the
+// request satisfies, the bucket consulted holds it)
+pub open spec fn map_complete<K, T, S: Store<T>>(m: Map<K, S>, kf: spec_fn(K, RouteRef<T>) -> bool) -> bool {
+    forall|k: K, x: RouteRef<T>| #![trigger kf(k, x), map_holds(m, x)] kf(k, x) && map_holds(m, x) ==> m.contains_key(k) && m[k].holds(x)
+}
+pub proof fn lemma_map_complete_removed<K, T, S: Store<T>>(m0: Map<K, S>, m1: Map<K, S>, id: Seq<char>, kf: spec_fn(K, RouteRef<T>) -> bool)
+    requires entries_removed(m0, m1, id), map_complete(m0, kf), forall|v: S| v.wf() && v.cnt() == 0 ==> forall|x: RouteRef<T>| !#[trigger] v.holds(x),
+    ensures map_complete(m1, kf),
+{
+    assert forall|k: K, x: RouteRef<T>| #![trigger kf(k, x), map_holds(m1, x)] kf(k, x) && map_holds(m1, x) implies m1.contains_key(k) && m1[k].holds(x) by {
+        let k1 = choose|k1: K| m1.contains_key(k1) && #[trigger] m1[k1].holds(x);
+        assert(m0.contains_key(k1) && m0[k1].holds(x) && rid(*x) != id); assert(map_holds(m0, x)); assert(m0.contains_key(k) && m0[k].holds(x));
+        if !m1.contains_key(k) { let v1 = choose|v1: S| #[trigger] removed_rel2(m0[k], v1, id) && v1.cnt() == 0; assert(v1.holds(x)); }
+    }
+}
+pub proof fn lemma_map_complete_batched<K, T, S: Store<T>>(m0: Map<K, S>, m1: Map<K, S>, ids: Set<String>, kf: spec_fn(K, RouteRef<T>) -> bool)
+    requires entries_batched(m0, m1, ids), map_complete(m0, kf), forall|v: S| v.wf() && v.cnt() == 0 ==> forall|x: RouteRef<T>| !#[trigger] v.holds(x),
+    ensures map_complete(m1, kf),
+{
+    assert forall|k: K, x: RouteRef<T>| #![trigger kf(k, x), map_holds(m1, x)] kf(k, x) && map_holds(m1, x) implies m1.contains_key(k) && m1[k].holds(x) by {
+        let k1 = choose|k1: K| m1.contains_key(k1) && #[trigger] m1[k1].holds(x);
+        assert(m0.contains_key(k1) && m0[k1].holds(x) && !ids_has(ids, rid(*x))); assert(map_holds(m0, x)); assert(m0.contains_key(k) && m0[k].holds(x));
+        if !m1.contains_key(k) { let v1 = choose|v1: S| #[trigger] batched_rel(m0[k], v1, ids) && v1.cnt() == 0; assert(v1.holds(x)); }
+    }
 }
 // R8 outline, ASSUMED contract (trusted, listed): the statement
 //     <map>.retain(|_, matcher| { if let Some(value) = matcher.remove(id) { removed = Some(value); } !matcher.is_empty() });
@@ -456,6 +522,32 @@ pub proof fn lemma_scheme_batched<T>(o: SchemeMatcher<T>, n: SchemeMatcher<T>, i
     assert forall|x: RouteRef<T>| #[trigger] n.any_scheme.holds(x) implies sch_any_ok(x) by { assert(o.any_scheme.holds(x)); }
     lemma_scheme_uniq_bridge(n);
 }
+// what the scheme layer answers, read off its buckets (statement): any-scheme rules, plus the bucket of exactly the request's scheme
+pub open spec fn scheme_answers<T>(m: SchemeMatcher<T>, q: Request, x: RouteRef<T>) -> bool {
+    sub_answers(m.any_scheme, q, x) || (req_scheme(q) matches Some(sc) && exists|k: String| k@ == sc && m.schemes@.contains_key(k) && #[trigger] sub_answers(m.schemes@[k], q, x))
+}
+// the scheme trigger of a rule: no (or the empty) scheme, or exactly the request's scheme
+pub open spec fn scheme_sat<T>(x: RouteRef<T>, q: Request) -> bool { match rscheme(*x) { None => true, Some(sc) => sc.len() == 0 || req_scheme(q) == Some(sc) } }
+// EXACTNESS of the scheme layer (C01; with the mutator laws of C02 this makes the answers a function of the stored set, i.e. equal to
+// those of a router rebuilt from the same rules): a rule is reported iff it is stored, its scheme trigger holds and the triggers below hold
+pub proof fn lemma_scheme_exact<T>(m: SchemeMatcher<T>, q: Request)
+    requires m.wf(),
+    ensures forall|x: RouteRef<T>| #[trigger] scheme_answers(m, q, x) <==> m.holds(x) && scheme_sat(x, q) && sat_below(x, q),
+{
+    axiom_string_ext();
+    lemma_sub_exact(m.any_scheme, q);
+    assert forall|x: RouteRef<T>| #[trigger] scheme_answers(m, q, x) <==> m.holds(x) && scheme_sat(x, q) && sat_below(x, q) by {
+        if scheme_answers(m, q, x) && !sub_answers(m.any_scheme, q, x) {
+            let sc = req_scheme(q).unwrap(); let k = choose|k: String| k@ == sc && m.schemes@.contains_key(k) && #[trigger] sub_answers(m.schemes@[k], q, x);
+            lemma_sub_exact(m.schemes@[k], q); assert(m.schemes@[k].holds(x)); assert(map_holds(m.schemes@, x)); assert(sch_kf::<T>()(k, x));
+        }
+        if sub_answers(m.any_scheme, q, x) { assert(m.any_scheme.holds(x)); assert(sch_any_ok(x)); }
+        if m.holds(x) && scheme_sat(x, q) && sat_below(x, q) {
+            if m.any_scheme.holds(x) { assert(sub_answers(m.any_scheme, q, x)); }
+            else { let k = choose|k: String| m.schemes@.contains_key(k) && #[trigger] m.schemes@[k].holds(x); assert(sch_kf::<T>()(k, x)); assert(k@.len() > 0); lemma_sub_exact(m.schemes@[k], q); assert(sub_answers(m.schemes@[k], q, x)); assert(req_scheme(q) == Some(k@)); }
+        }
+    }
+}
 impl<T> SchemeMatcher<T> {
     //@@ fn src/router/request_matcher/scheme.rs :: impl <T>SchemeMatcher<T> / fn new -> r
     //@| ensures r.wf(), r.cnt() == 0, forall|x: RouteRef<T>| !r.holds(x),
@@ -503,6 +595,13 @@ impl<T> SchemeMatcher<T> {
     //@| entry broadcast use group_hash_axioms; broadcast use axiom_string_key_model;
     //@|     proof { axiom_string_ext(); }
     //@| exit proof { lemma_scheme_batched(*old(self), *self, ids@); }
+
+    // C01 (scheme layer): rules for any scheme, plus the rules filed under exactly the request's scheme
+    //@@ fn src/router/request_matcher/scheme.rs :: impl <T>SchemeMatcher<T> / fn match_request -> r
+    //@| ensures forall|x: RouteRef<T>| #[trigger] r@.contains(x) <==> scheme_answers(*self, *request, x),
+    //@| entry broadcast use group_hash_axioms; broadcast use axiom_string_key_model; broadcast use axiom_borrow_str_contains; broadcast use axiom_borrow_str_maps;
+    //@|     proof { axiom_string_ext(); }
+    //@| outline `routes.extend(matcher.match_request(request));` => `ext_routes(&mut routes, matcher.match_request(request));`
 
     //@@ fn src/router/request_matcher/scheme.rs :: impl <T>SchemeMatcher<T> / fn len -> r
     //@| ensures r == self.cnt(),
@@ -835,7 +934,7 @@ impl<T> IpMatcher<T> {
         &&& self.counted()
         &&& forall|x: RouteRef<T>, y: RouteRef<T>| #[trigger] self.sholds(x) && #[trigger] self.sholds(y) && rid(*x) == rid(*y) ==> x == y
         // bucket-key consistency: a route filed under range k lists k among its ip constraints; a route filed under "no ip" has none
-        &&& map_keyed(self.matchers@, ip_kf::<T>())
+        &&& map_keyed(self.matchers@, ip_kf::<T>()) && map_complete(self.matchers@, ip_kf::<T>())
         &&& forall|x: RouteRef<T>| #[trigger] self.no_matcher.holds(x) ==> rips(*x) is None
     }
 }
@@ -887,7 +986,7 @@ pub proof fn lemma_ip_counted_sub<T>(o: IpMatcher<T>, n: IpMatcher<T>, dec: bool
 
 pub proof fn lemma_ip_inserted<T>(o: IpMatcher<T>, n: IpMatcher<T>, rt: RouteRef<T>)
     requires o.wf(), forall|x: RouteRef<T>| o.holds(x) ==> rid(*x) != rid(*rt), n.count == o.count + 1,
-        n.no_matcher.wf(), map_wf(n.matchers@), map_keyed(n.matchers@, ip_kf::<T>()),
+        n.no_matcher.wf(), map_wf(n.matchers@), map_keyed(n.matchers@, ip_kf::<T>()), map_complete(n.matchers@, ip_kf::<T>()),
         forall|x: RouteRef<T>| #![trigger n.sholds(x)] n.sholds(x) <==> o.sholds(x) || x == rt,
         forall|x: RouteRef<T>| #[trigger] n.no_matcher.holds(x) ==> rips(*x) is None,
     ensures inserted_rel(o, n, rt),
@@ -941,6 +1040,42 @@ pub proof fn lemma_ip_batched<T>(o: IpMatcher<T>, n: IpMatcher<T>, ids: Set<Stri
     lemma_ip_counted_sub(o, n, false);
     assert forall|x: RouteRef<T>| #[trigger] n.no_matcher.holds(x) implies rips(*x) is None by { assert(o.no_matcher.holds(x)); }
 }
+
+// C01 exactness of the ip layer. The answer is the membership-exact contract verified for IpMatcher::match_request in unit rtr (same
+// formula, restated over this unit's view): the no-ip bucket, plus every range bucket whose range test the client address satisfies.
+pub uninterp spec fn sat_ip(k: RouteIp, a: IpAddr) -> bool;
+pub open spec fn ip_answers<T>(m: IpMatcher<T>, q: Request, x: RouteRef<T>) -> bool {
+    sub_answers(m.no_matcher, q, x) || (q.remote_addr matches Some(a) && exists|k: RouteIp| m.matchers@.contains_key(k) && sat_ip(k, a) && #[trigger] sub_answers(m.matchers@[k], q, x))
+}
+// the ip trigger of a rule: no ip constraint, or SOME listed range test holds for the client address
+pub open spec fn ip_sat<T>(x: RouteRef<T>, q: Request) -> bool {
+    match rips(*x) { None => true, Some(v) => q.remote_addr matches Some(a) && exists|i: int| 0 <= i < v.len() && sat_ip(#[trigger] v[i], a) }
+}
+pub proof fn lemma_ip_exact<T>(m: IpMatcher<T>, q: Request)
+    requires m.wf(),
+    ensures forall|x: RouteRef<T>| #[trigger] ip_answers(m, q, x) <==> m.holds(x) && ip_sat(x, q) && sat_below(x, q),
+{
+    lemma_sub_exact(m.no_matcher, q);
+    let kf = ip_kf::<T>();
+    assert forall|x: RouteRef<T>| #[trigger] ip_answers(m, q, x) <==> m.holds(x) && ip_sat(x, q) && sat_below(x, q) by {
+        if ip_answers(m, q, x) && !sub_answers(m.no_matcher, q, x) {
+            let a = q.remote_addr.unwrap(); let k = choose|k: RouteIp| m.matchers@.contains_key(k) && sat_ip(k, a) && #[trigger] sub_answers(m.matchers@[k], q, x);
+            lemma_sub_exact(m.matchers@[k], q); assert(m.matchers@[k].holds(x)); assert(map_holds(m.matchers@, x)); assert(kf(k, x));
+            let v = rips(*x).unwrap(); let i = choose|i: int| 0 <= i < v.len() && v[i] == k; assert(sat_ip(v[i], a));
+        }
+        if sub_answers(m.no_matcher, q, x) { assert(m.no_matcher.holds(x)); }
+        if m.holds(x) && ip_sat(x, q) && sat_below(x, q) {
+            if m.no_matcher.holds(x) { assert(sub_answers(m.no_matcher, q, x)); }
+            else {
+                let k0 = choose|k0: RouteIp| m.matchers@.contains_key(k0) && #[trigger] m.matchers@[k0].holds(x); assert(kf(k0, x));
+                let v = rips(*x).unwrap(); let a = q.remote_addr.unwrap(); let i = choose|i: int| 0 <= i < v.len() && sat_ip(#[trigger] v[i], a);
+                assert(v.contains(v[i])); assert(kf(v[i], x)); assert(map_holds(m.matchers@, x));
+                assert(m.matchers@.contains_key(v[i]) && m.matchers@[v[i]].holds(x));
+                lemma_sub_exact(m.matchers@[v[i]], q); assert(sub_answers(m.matchers@[v[i]], q, x));
+            }
+        }
+    }
+}
 impl<T> IpMatcher<T> {
     //@@ fn src/router/request_matcher/ip.rs :: impl <T>IpMatcher<T> / fn new -> r
     //@| ensures r.wf(), r.cnt() == 0, forall|x: RouteRef<T>| !r.holds(x),
@@ -966,6 +1101,8 @@ impl<T> IpMatcher<T> {
     //@|     map_wf(self.matchers@), map_keyed(self.matchers@, kf),
     //@|     forall|x: RouteRef<T>| #![trigger map_holds(self.matchers@, x)] map_holds(self.matchers@, x) <==> map_holds(m0, x) || (it.index@ > 0 && x == rt),
     //@|     forall|j: int| it.index@ <= j < iv.len() && self.matchers@.contains_key(#[trigger] iv[j]) ==> m0.contains_key(iv[j]) && self.matchers@[iv[j]] == m0[iv[j]],
+    //@|     forall|j: int| 0 <= j < it.index@ ==> self.matchers@.contains_key(#[trigger] iv[j]) && self.matchers@[iv[j]].holds(rt),
+    //@|     forall|kk: RouteIp, x: RouteRef<T>| m0.contains_key(kk) && #[trigger] m0[kk].holds(x) ==> self.matchers@.contains_key(kk) && self.matchers@[kk].holds(x),
     //@| loophead 0: let ghost m1 = self.matchers@; let ghost k = it.index@ as int;
     //@|     proof { assert(*ip == iv[k]);
     //@|         if m1.contains_key(*ip) { assert(m1[*ip] == m0[*ip]); assert forall|x: RouteRef<T>| m1[*ip].holds(x) implies rid(*x) != rid(*route) by { assert(m0[*ip].holds(x)); assert(map_holds(m0, x)); assert(old(self).sholds(x)); assert(old(self).holds(x)); } } }
@@ -975,10 +1112,16 @@ impl<T> IpMatcher<T> {
     //@|     lemma_map_inserted(m1, self.matchers@, key, rt, kf);
     //@|     assert forall|x: RouteRef<T>| #![trigger map_holds(self.matchers@, x)] map_holds(self.matchers@, x) <==> map_holds(m0, x) || x == rt by { assert(map_holds(self.matchers@, x) <==> map_holds(m1, x) || x == rt); }
     //@|     assert forall|j: int| k + 1 <= j < iv.len() && self.matchers@.contains_key(#[trigger] iv[j]) implies m0.contains_key(iv[j]) && self.matchers@[iv[j]] == m0[iv[j]] by { assert(iv[j] != key); assert(m1.contains_key(iv[j])); }
+    //@|     assert forall|j: int| 0 <= j < k + 1 implies self.matchers@.contains_key(#[trigger] iv[j]) && self.matchers@[iv[j]].holds(rt) by { if j < k { assert(iv[j] != key); assert(m1.contains_key(iv[j]) && m1[iv[j]].holds(rt)); assert(self.matchers@[iv[j]] == m1[iv[j]]); } }
+    //@|     assert forall|kk: RouteIp, x: RouteRef<T>| m0.contains_key(kk) && #[trigger] m0[kk].holds(x) implies self.matchers@.contains_key(kk) && self.matchers@[kk].holds(x) by { assert(m1.contains_key(kk) && m1[kk].holds(x)); if kk != key { assert(self.matchers@[kk] == m1[kk]); } }
     //@| }
     //@| exit proof {
     //@|     assert forall|x: RouteRef<T>| #![trigger self.sholds(x)] self.sholds(x) <==> old(self).sholds(x) || x == rt by {}
     //@|     assert forall|x: RouteRef<T>| #[trigger] self.no_matcher.holds(x) implies rips(*x) is None by { if x != rt { assert(old(self).no_matcher.holds(x)); } }
+    //@|     assert forall|kk: RouteIp, x: RouteRef<T>| #![trigger kf(kk, x), map_holds(self.matchers@, x)] kf(kk, x) && map_holds(self.matchers@, x) implies self.matchers@.contains_key(kk) && self.matchers@[kk].holds(x) by {
+    //@|         if x == rt { if rips(*rt) is Some { let v = rips(*rt).unwrap(); let j = choose|j: int| 0 <= j < v.len() && v[j] == kk; assert(self.matchers@.contains_key(v[j])); } else { } }
+    //@|         else { assert(map_holds(m0, x)); assert(m0.contains_key(kk) && m0[kk].holds(x)); }
+    //@|     }
     //@|     lemma_ip_inserted(*old(self), *self, rt);
     //@| }
 
@@ -1048,7 +1191,7 @@ impl<T> MethodMatcher<T> {
         &&& forall|x: RouteRef<T>, y: RouteRef<T>| #[trigger] self.sholds(x) && #[trigger] self.sholds(y) && rid(*x) == rid(*y) ==> x == y
         // bucket-key consistency (C01): inclusion buckets hold rules that list the method and are NOT exclusions; exclusion buckets hold rules whose
         // exclusion flag is set, under their own list; "any" holds rules without (or with an empty) method list
-        &&& map_keyed(self.methods@, meth_kf::<T>()) && map_keyed(self.exclude_methods@, excl_kf::<T>())
+        &&& map_keyed(self.methods@, meth_kf::<T>()) && map_keyed(self.exclude_methods@, excl_kf::<T>()) && map_complete(self.methods@, meth_kf::<T>())
         &&& forall|x: RouteRef<T>| #[trigger] self.any_method.holds(x) ==> meth_any_ok(x)
     }
 }
@@ -1098,7 +1241,7 @@ pub proof fn lemma_meth_counted_sub<T>(o: MethodMatcher<T>, n: MethodMatcher<T>,
 }
 pub proof fn lemma_meth_inserted<T>(o: MethodMatcher<T>, n: MethodMatcher<T>, rt: RouteRef<T>)
     requires o.wf(), forall|x: RouteRef<T>| o.holds(x) ==> rid(*x) != rid(*rt), n.count == o.count + 1,
-        n.any_method.wf(), map_wf(n.methods@), map_wf(n.exclude_methods@), map_keyed(n.methods@, meth_kf::<T>()), map_keyed(n.exclude_methods@, excl_kf::<T>()),
+        n.any_method.wf(), map_wf(n.methods@), map_wf(n.exclude_methods@), map_keyed(n.methods@, meth_kf::<T>()), map_keyed(n.exclude_methods@, excl_kf::<T>()), map_complete(n.methods@, meth_kf::<T>()),
         forall|x: RouteRef<T>| #![trigger n.sholds(x)] n.sholds(x) <==> o.sholds(x) || x == rt,
         forall|x: RouteRef<T>| #[trigger] n.any_method.holds(x) ==> meth_any_ok(x),
     ensures inserted_rel(o, n, rt),
@@ -1156,6 +1299,53 @@ pub proof fn lemma_meth_batched<T>(o: MethodMatcher<T>, n: MethodMatcher<T>, ids
     lemma_meth_counted_sub(o, n, false);
     assert forall|x: RouteRef<T>| #[trigger] n.any_method.holds(x) implies meth_any_ok(x) by { assert(o.any_method.holds(x)); }
 }
+
+// C01 exactness of the method layer. The answer is the membership-exact contract verified for MethodMatcher::match_request in unit rtr
+// (same formula): the any-method bucket, the bucket of the request's method, and every exclusion bucket whose list lacks the method.
+pub uninterp spec fn req_method(q: Request) -> Seq<char>;
+pub open spec fn method_answers<T>(m: MethodMatcher<T>, q: Request, x: RouteRef<T>) -> bool {
+    ||| sub_answers(m.any_method, q, x)
+    ||| exists|k: String| k@ == req_method(q) && m.methods@.contains_key(k) && #[trigger] sub_answers(m.methods@[k], q, x)
+    ||| exists|ms: Vec<String>| m.exclude_methods@.contains_key(ms) && !mlist_has(ms@, req_method(q)) && #[trigger] sub_answers(m.exclude_methods@[ms], q, x)
+}
+// the method trigger of a rule: no (or an empty) list; or the request's method is listed; or — exclusion flag set — it is NOT listed
+pub open spec fn method_sat<T>(x: RouteRef<T>, q: Request) -> bool {
+    match rmethods(*x) { None => true, Some(v) => v.len() == 0 || (if excluded(x) { !mlist_has(v, req_method(q)) } else { mlist_has(v, req_method(q)) }) }
+}
+pub proof fn lemma_method_exact<T>(m: MethodMatcher<T>, q: Request)
+    requires m.wf(),
+    ensures forall|x: RouteRef<T>| #[trigger] method_answers(m, q, x) <==> m.holds(x) && method_sat(x, q) && sat_below(x, q),
+{
+    axiom_string_ext();
+    lemma_sub_exact(m.any_method, q);
+    let kf = meth_kf::<T>(); let ekf = excl_kf::<T>(); let rm = req_method(q);
+    assert forall|x: RouteRef<T>| #[trigger] method_answers(m, q, x) <==> m.holds(x) && method_sat(x, q) && sat_below(x, q) by {
+        if sub_answers(m.any_method, q, x) { assert(m.any_method.holds(x)); assert(meth_any_ok(x)); }
+        if exists|k: String| k@ == rm && m.methods@.contains_key(k) && #[trigger] sub_answers(m.methods@[k], q, x) {
+            let k = choose|k: String| k@ == rm && m.methods@.contains_key(k) && #[trigger] sub_answers(m.methods@[k], q, x);
+            lemma_sub_exact(m.methods@[k], q); assert(m.methods@[k].holds(x)); assert(map_holds(m.methods@, x)); assert(kf(k, x));
+            let v = rmethods(*x).unwrap(); assert(mlist_has(v, rm)); assert(v.len() > 0);
+        }
+        if exists|ms: Vec<String>| m.exclude_methods@.contains_key(ms) && !mlist_has(ms@, rm) && #[trigger] sub_answers(m.exclude_methods@[ms], q, x) {
+            let ms = choose|ms: Vec<String>| m.exclude_methods@.contains_key(ms) && !mlist_has(ms@, rm) && #[trigger] sub_answers(m.exclude_methods@[ms], q, x);
+            lemma_sub_exact(m.exclude_methods@[ms], q); assert(m.exclude_methods@[ms].holds(x)); assert(map_holds(m.exclude_methods@, x)); assert(ekf(ms, x));
+        }
+        if m.holds(x) && method_sat(x, q) && sat_below(x, q) {
+            if m.any_method.holds(x) { assert(sub_answers(m.any_method, q, x)); }
+            else if map_holds(m.methods@, x) {
+                let k0 = choose|k0: String| m.methods@.contains_key(k0) && #[trigger] m.methods@[k0].holds(x); assert(kf(k0, x));
+                let v = rmethods(*x).unwrap(); assert(v.len() > 0); assert(mlist_has(v, rm));
+                let i = choose|i: int| 0 <= i < v.len() && #[trigger] v[i]@ == rm; let key = v[i];
+                assert(mlist_has(v, key@)); assert(kf(key, x));
+                assert(m.methods@.contains_key(key) && m.methods@[key].holds(x));
+                lemma_sub_exact(m.methods@[key], q); assert(sub_answers(m.methods@[key], q, x));
+            } else {
+                let ms = choose|ms: Vec<String>| m.exclude_methods@.contains_key(ms) && #[trigger] m.exclude_methods@[ms].holds(x); assert(ekf(ms, x));
+                lemma_sub_exact(m.exclude_methods@[ms], q); assert(sub_answers(m.exclude_methods@[ms], q, x)); assert(!mlist_has(ms@, rm));
+            }
+        }
+    }
+}
 impl<T> MethodMatcher<T> {
     //@@ fn src/router/request_matcher/method.rs :: impl <T>MethodMatcher<T> / fn new -> r
     //@| ensures r.wf(), r.cnt() == 0, forall|x: RouteRef<T>| !r.holds(x),
@@ -1187,6 +1377,7 @@ impl<T> MethodMatcher<T> {
     //@|     assert(ekf(key, rt));
     //@|     lemma_map_inserted(e0, self.exclude_methods@, key, rt, ekf);
     //@|     assert forall|x: RouteRef<T>| #![trigger self.sholds(x)] self.sholds(x) <==> old(self).sholds(x) || x == rt by {}
+    //@|     assert(self.methods@ == m0); assert(map_complete(m0, kf));
     //@|     lemma_meth_inserted(*old(self), *self, rt);
     //@| }
     //@| forlabel 0: it
@@ -1198,6 +1389,8 @@ impl<T> MethodMatcher<T> {
     //@|     map_wf(self.methods@), map_keyed(self.methods@, kf),
     //@|     forall|x: RouteRef<T>| #![trigger map_holds(self.methods@, x)] map_holds(self.methods@, x) <==> map_holds(m0, x) || (it.index@ > 0 && x == rt),
     //@|     forall|j: int| it.index@ <= j < iv.len() && self.methods@.contains_key(#[trigger] iv[j]) ==> m0.contains_key(iv[j]) && self.methods@[iv[j]] == m0[iv[j]],
+    //@|     forall|j: int| 0 <= j < it.index@ ==> self.methods@.contains_key(#[trigger] iv[j]) && self.methods@[iv[j]].holds(rt),
+    //@|     forall|kk: String, x: RouteRef<T>| m0.contains_key(kk) && #[trigger] m0[kk].holds(x) ==> self.methods@.contains_key(kk) && self.methods@[kk].holds(x),
     //@| loophead 0: let ghost m1 = self.methods@; let ghost k = it.index@ as int;
     //@|     proof { assert(*method == iv[k]);
     //@|         if m1.contains_key(*method) { assert(m1[*method] == m0[*method]); assert forall|x: RouteRef<T>| m1[*method].holds(x) implies rid(*x) != rid(*route) by { assert(m0[*method].holds(x)); assert(map_holds(m0, x)); assert(old(self).sholds(x)); assert(old(self).holds(x)); } } }
@@ -1208,10 +1401,16 @@ impl<T> MethodMatcher<T> {
     //@|     lemma_map_inserted(m1, self.methods@, key, rt, kf);
     //@|     assert forall|x: RouteRef<T>| #![trigger map_holds(self.methods@, x)] map_holds(self.methods@, x) <==> map_holds(m0, x) || x == rt by { assert(map_holds(self.methods@, x) <==> map_holds(m1, x) || x == rt); }
     //@|     assert forall|j: int| k + 1 <= j < iv.len() && self.methods@.contains_key(#[trigger] iv[j]) implies m0.contains_key(iv[j]) && self.methods@[iv[j]] == m0[iv[j]] by { assert(iv[j]@ != key@); assert(iv[j] != key); assert(m1.contains_key(iv[j])); }
+    //@|     assert forall|j: int| 0 <= j < k + 1 implies self.methods@.contains_key(#[trigger] iv[j]) && self.methods@[iv[j]].holds(rt) by { if j < k { assert(iv[j]@ != key@); assert(iv[j] != key); assert(m1.contains_key(iv[j]) && m1[iv[j]].holds(rt)); assert(self.methods@[iv[j]] == m1[iv[j]]); } }
+    //@|     assert forall|kk: String, x: RouteRef<T>| m0.contains_key(kk) && #[trigger] m0[kk].holds(x) implies self.methods@.contains_key(kk) && self.methods@[kk].holds(x) by { assert(m1.contains_key(kk) && m1[kk].holds(x)); if kk != key { assert(self.methods@[kk] == m1[kk]); } }
     //@| }
     //@| exit proof {
     //@|     assert forall|x: RouteRef<T>| #![trigger self.sholds(x)] self.sholds(x) <==> old(self).sholds(x) || x == rt by {}
     //@|     assert forall|x: RouteRef<T>| #[trigger] self.any_method.holds(x) implies meth_any_ok(x) by { if x != rt { assert(old(self).any_method.holds(x)); } }
+    //@|     assert forall|kk: String, x: RouteRef<T>| #![trigger kf(kk, x), map_holds(self.methods@, x)] kf(kk, x) && map_holds(self.methods@, x) implies self.methods@.contains_key(kk) && self.methods@[kk].holds(x) by {
+    //@|         if x == rt { let v = rmethods(*rt).unwrap(); let j = choose|j: int| 0 <= j < v.len() && #[trigger] v[j]@ == kk@; assert(v[j] == kk); if map_holds(m0, rt) { assert(old(self).sholds(rt)); assert(old(self).holds(rt)); } assert(self.methods@.contains_key(v[j])); }
+    //@|         else { assert(map_holds(m0, x)); assert(m0.contains_key(kk) && m0[kk].holds(x)); }
+    //@|     }
     //@|     lemma_meth_inserted(*old(self), *self, rt);
     //@| }
 
